@@ -541,10 +541,50 @@ theorem C18_sim_steps :
       0 ≤ Gen.LowPass.simNRef (g : ℕ) (d : ℕ) (b : ℕ) ∧ 0 ≤ Gen.LowPass.simNAlt (g : ℕ) (d : ℕ) (b : ℕ) ∧
       Gen.LowPass.simNRef (g : ℕ) (d : ℕ) (b : ℕ) + Gen.LowPass.simNAlt (g : ℕ) (d : ℕ) (b : ℕ) = (d : ℕ)) ∧
     (∀ c n : ℤ, Gen.LowPass.simEnough c n = true → Gen.LowPass.simSubSkip c n = false) ∧
-    Gen.LowPass.simShapeOk = true ∧ Gen.LowPass.simHetP = 1 / 2 :=
-  ⟨simKeep_eq_not_simDrop, simCall_table,
-    fun g d b hg hb => ⟨(simReads g d b hg hb).1, (simReads g d b hg hb).2.1, (simReads g d b hg hb).2.2.1⟩,
-    simEnough_not_skip, by decide, by decide +kernel⟩
+    Gen.LowPass.simShapeOk = true ∧ Gen.LowPass.simHetP = 1 / 2 := by
+  refine ⟨?_, ?_, ?_, ?_, by decide, by decide +kernel⟩
+  · intro t
+    unfold Gen.LowPass.simKeep Gen.LowPass.simDrop
+    by_cases h : t < 2
+    · simp [h]
+    · simp [h]; omega
+  · intro r a hr ha
+    unfold Gen.LowPass.simCall Gen.LowPass.simNoCall
+    by_cases h1 : r = 0 <;> by_cases h2 : a = 0
+    · subst h1; subst h2; simp
+    · subst h1
+      have : 0 < a := by omega
+      simp [h2, this]
+    · subst h2
+      have : 0 < r := by omega
+      simp [h1, this]
+    · have h3 : 0 < r := by omega
+      have h4 : 0 < a := by omega
+      simp [h1, h2, h3, h4]
+  · intro g d b hg hb
+    unfold Gen.LowPass.simNRef Gen.LowPass.simNAlt
+    interval_cases g
+    · simp
+    · simp; omega
+    · simp
+  · intro c n h
+    unfold Gen.LowPass.simEnough at h
+    unfold Gen.LowPass.simSubSkip
+    simp only [decide_eq_true_eq, decide_eq_false_iff_not, not_lt] at h ⊢
+    exact h
+
+/-- **Every simulated locus is accounted for exactly once.**  Whenever the recorded draws fit the sizes (`blockRows` succeeds:
+    all populations hand the same number of rows to `called_freqs`), the rows one aggregate partition passes to
+    `numpy.histogramdd` together with the loci it records directly in entry 0 (fewer than two alternative reads, or too few
+    calls) are exactly as many as the loci it simulated: the polymorphism filter and its complement, the enough-calls filter and
+    its complement lose and duplicate nothing.  (*partial*: that `histogramdd` then drops no row — every subsampled allele count
+    lies in 0..nsub — is checked on the real code, L3 `locus-count`, not proved.) -/
+theorem C18_sim_rows_conserved (pops : List Pop) (gss : List (List ℕ)) (b : BlockDraw) (rows : List (List ℤ))
+    (h : blockRows pops gss b = some rows) : rows.length = b.loci.length :=
+  blockRows_length C18_sim_steps.1 pops gss b rows h
+
+example : blockRows [⟨[1/4, 1/4, 1/2], 4, 2, 0⟩] [[1, 1]] ⟨[[[(2, 2), (0, 0)]], [[(2, 1), (2, 1)]], [[(0, 0), (1, 0)]]], [[[0], [1]]]⟩
+    = some [[0], [2], [1]] := by decide +kernel
 
 /-- **A simulated table is a probability table, whatever the random draws.**  `simTable pops af draws` is
     `simulate_GATK_multisample_calling(cov, af, nseq, nsub, nsim, Fx)` as a function of the recorded draws (depths, alternative
